@@ -93,7 +93,7 @@ LatticeSites(d) ==
                \cup { Site("lattice_argument", "cli", v, c, 0) :
                       v \in {"no_ranges", "four_ranges", "cell_not_int", "bound_not_int", "double_colon", "empty_range"} }
           ELSE IF d.cells[c].nranges > 0
-          THEN { Site("fill_length", "lat", v, c, 0) : v \in {"one_less", "one_more"} }
+          THEN { Site("fill_length", "lat", v, c, 0) : v \in {"one_less", "one_more", "one_more_repeat", "one_more_nrepeat"} }
           ELSE {}
         : c \in LiveL(d) }
 (* IMP cards of unequal length *)
